@@ -260,6 +260,7 @@ class Interp:
         fr = Frame(fi, env, depth, closure_env)
         fr.path_base = len(self.path)
         self.frames.append(fr)
+        survive: List[Expr] = []
         try:
             for name, d in list(zip(params, defaults)) + list(kwonly.items()):
                 if name not in env:
@@ -273,10 +274,21 @@ class Interp:
                 done = self.exec_block(fnode.body, env)
                 if done is None and not fr.returns and self.frames[:-1]:
                     raise Raised(fi.qualname)
+                exits = [c for c, _ in fr.returns]
+                if done is not None:
+                    exits.append(list(self.path[fr.path_base:]))
                 ret = self._join_returns(fr)
+                # facts that hold on every normal exit of the callee (typically: its guards did not raise) stay known
+                # to the caller
+                if exits and self.frames[:-1]:
+                    common = [c for c in exits[0] if all(any(c == d for d in e) for e in exits[1:])]
+                    survive = common
         finally:
             self.frames.pop()
             del self.path[fr.path_base:]
+        for c in survive:
+            if not any(c == d for d in self.path):
+                self.path.append(c)
         return ret
 
     def _join_returns(self, fr: Frame) -> Val:
